@@ -25,7 +25,7 @@ TEXT = {
 TEXT['C20'] = ("Kani checks the inductive step on the real LimitedCache bodies: from an arbitrary cache state satisfying the invariant (size <= capacity, distinct keys, stamps bounded and distinct) one symbolic get / add / get_or_set re-establishes the invariant and satisfies the operation's postcondition over the whole view, and a just-used entry survives the next eviction; histories of any length follow. Bounded in capacity (HashMap stand-in CAP = 4), so labelled bounded, not proved.",
          "Trusted: array-backed HashMap stand-in (finite map), insertion-sort stub for sort_unstable, no stamp-counter overflow. Capacities above 4 not covered.")
 TEXT['C01'] = ("Codec and addressing cores of versatiles and PMTiles: Kani proves (complete, fixed-size records) that the 66-byte versatiles header, the 33-byte block definition and the 127-byte PMTiles header are written at the published offsets and decode back to the same value, and the Hilbert tile-id mapping round-trips for every coordinate of every zoom level (one complete harness per zoom); Verus proves serialize_entries against the PMTiles column layout, EntriesV3::from_blob against the decoding rules of the same layout, and - as lemmas over the two contracts, for directories of any length - that decoding what was serialized gives back every entry (directory codec round trip, incl. the LEB128 enc/dec inverse lemma); the varint encoder against LEB128, the tile index / block index codecs and the tile-index <-> coordinate conversions of a block.",
-         "Readers: the PMTiles single-tile lookup equals the specification's lookup (pm_lookup), MBTiles coverage covers the table. Trusted: byte-I/O stand-ins (cursor, endian integer codecs = byteorder), SQL snippet table, extraction rules. Not decided: end-to-end write/read through async I/O, MBTiles tile queries, tar/directory, BlockIndex::as_blob.")
+         "Writers: VersaTilesWriter::write_block (every streamed tile is addressed by the index entry at its row-major position; de-duplication), PMTilesWriter::write_to_writer (section layout without overlap; every directory entry addresses a source tile under its Hilbert id), MBTilesWriter::add_tiles (TMS row). Readers: the PMTiles single-tile lookup equals the specification's lookup (pm_lookup), MBTiles coverage / lookup / box query against the table, the chunk grouping of the versatiles stream. Trusted: byte-I/O and writer stand-ins (cursor, endian integer codecs = byteorder, positional writer), SQL snippet table, extraction rules. Not decided: writer -> file -> reader as one theorem, write_blocks and header/meta writes, range reads and slicing of the versatiles stream, tar/directory, BlockIndex::as_blob.")
 TEXT['C16'] = ("Readers against the published layouts, independent of this code's writers: Verus proves find_tile against the PMTiles lookup rule (greatest entry id <= tile id, run lengths, leaf fall-through) for ALL sorted directories; Verus proves EntriesV3::from_blob for ALL byte strings: an accepted directory is decoded by the column rules of the specification (running id sums, offset code 0 = previous offset + previous length), and every valid directory (complete varints, 64-bit ids/offsets, explicit first offset, <= 10^10 entries) is accepted; Kani re-checks the decoder against an independent decoder written from the spec (bounded: <= 2 entries; <= 4 entries in the thorough tier), the header decoders for all byte strings, partial block definitions (any sub-rectangle), and the Hilbert mapping against the specification's reference algorithm.",
          "The PMTiles lookup get_tile_data is proved equal to the specification's lookup (root, leaf pointers decompressed with the internal compression, <= 3 levels, tile bytes at tile_data.offset + entry.offset); MBTiles coverage is proved against the table content. Trusted: byte-I/O stand-ins, leaf cache rely/guarantee, SQL snippet table. Not decided: MBTiles tile queries and zoom gaps, tar, directory.")
 TEXT['C19'] = ("Panic-freedom of the binary decoders under contract, for arbitrary bytes: Verus proves read_varint/read_svarint/read_pbf_key/get_sub_reader/get_pbf_sub_reader/read_pbf_packed_uint32/read_blob/read_string (no overflow, no out-of-bounds, bounded allocation, termination), find_tile, filter_bbox build validation and the converter lookup for any coordinate; Kani proves FileHeader::from_blob, BlockDefinition::from_blob, HeaderV3::deserialize for ALL byte strings; EntriesV3::from_blob, TileIndex/BlockIndex::from_blob, the vector-tile layer/feature/tile decoders and both single-tile lookups are proved total by Verus.",
